@@ -368,7 +368,7 @@ _CT['dtw.distance#maxdist'] = _ea
 # the property excludes and level O cannot express: that configuration stays with the bounded sweep.
 def wpea_cases():
     out = []
-    for il, inner, m, kir in (('eu', 'euclidean', 1, 'bool'), ('sq', 'squared euclidean', 0, ('const', True))):
+    for il, inner, m, kir in (('eu', 'euclidean', 1, 'bool'), ('sq', 'squared euclidean', 0, 'bool')):
         kw = dict(KW, inner_dist=('const', inner), psi='none', max_dist='val+', use_pruning=('const', False), max_length_diff='none')
         out.append(dict(label='%s/maxdist' % il, params={'kwargs': kw, 'keep_int_repr': kir}, metric=m, psi='nopsi'))
     return out
@@ -388,10 +388,15 @@ _we.cases = wpea_cases()
 _we.requires = ['%s >= 1' % R, '%s >= 1' % C, 'kwargs["window"] is None or kwargs["window"] >= 1',
                 'kwargs["penalty"] is None or kwargs["penalty"] >= 0',
                 'kwargs["max_dist"] > 0', '%s < inf' % _MA, 'not (%s < 0)' % _MA, '%s != 0' % _MA]
+_EXACT = '(keep_int_repr or %s == 1)' % METRIC       # the final test compares like with like
 _we.ensures = [
-    'implies(W(%s, %s) < %s, result[0] == %s)' % (R, C, _MA, _WRES('W(%s, %s)' % (R, C))),
-    'implies(%s < W(%s, %s), result[0] == inf)' % (_MA, R, C),
-    'result[0] == inf or result[0] == %s' % _WRES('W(%s, %s)' % (R, C)),
+    'implies(%s and W(%s, %s) < %s, result[0] == %s)' % (_EXACT, R, C, _MA, _WRES('W(%s, %s)' % (R, C))),
+    'implies(%s and %s < W(%s, %s), result[0] == inf)' % (_EXACT, _MA, R, C),
+    'implies(%s, result[0] == inf or result[0] == %s)' % (_EXACT, _WRES('W(%s, %s)' % (R, C))),
+    # squared inner distance, square-rooted output: the final test is on the square-rooted value against the user's bound.
+    # As the property states it: a distance below the bound is returned unchanged (what is returned above the bound depends
+    # on the sqrt/square round trip within a rounding width of the bound: bounded sweep only)
+    'implies(not %s and vsqrt(W(%s, %s)) < kwargs["max_dist"], result[0] == vsqrt(W(%s, %s)))' % (_EXACT, R, C, R, C),
     # the matrix: a cell the specification does not put above the bound is exact
     'forall(lambda a, b: implies(0 <= a <= %s and 0 <= b <= %s and not (%s < W(a, b)), result[1][a, b] == %s))'
     % (R, C, _MA, _WRES('W(a, b)')),
@@ -435,7 +440,8 @@ _we.hints_before = {
               'forall(lambda col: implies(j + 1 <= col <= c, %s < W(i + 1, col)), pattern=W(i + 1, col))' % M_,
               'forall(lambda b: implies(0 <= b <= j + 1 and b <= %s, Agree(%s, dtw[i + 1, b], W(i + 1, b))), pattern=W(i + 1, b))' % (C, M_),
               'forall(lambda b: implies(j + 1 < b <= %s, dtw[i + 1, b] == inf))' % C]}
-_we.theories = ('dtw', 'bounds', 'nonneg', 'astep', 'sqrtmono')
+_we.hints['dtw = result_fn(dtw)'] = ['implies(%s == 0, vsqrt(%s) == kwargs["max_dist"])' % (METRIC, M_)]
+_we.theories = ('dtw', 'bounds', 'nonneg', 'astep', 'sqrtmono', 'sqrtsq')
 _we.lemmas = ['CellAbove', 'RowAboveLeft', 'RowAboveRight', 'AgreeStep']
 _we.returns = ('tuple', 'val', 'matrix')
 _we.props = ('C03',)
